@@ -256,6 +256,9 @@ pub fn diff_case_pid(pid: &str, case: &Case, rep: &mut Report, origin: &str, wan
             return false;
         }
         rep.count("reference_comparisons");
+        if matches!(r_out, TxOutcome::Executed { .. }) {
+            rep.cell("reference_compared_executed_tx_shapes", super::online::tx_shape(&case.txs[0]));
+        }
         let a = r_out;
         let b = &rr.outcome;
         let mism = match (a, b) {
